@@ -440,9 +440,12 @@ pub fn show_de(r: &Result<SD, json_syntax::DeserializeError>) -> String {
     match r { Ok(d) => format!("ok {}", show_sd(d).replace('G', "F")), Err(e) => format!("E {}", err_class(&e.to_string())) }
 }
 
-/// the float a float visitor receives for a number text (json-number's `deserialize_any`)
+/// the float a float visitor receives for a number text: the integer converted when the text is a
+/// 64-bit integer literal, else std's correctly rounded `str::parse::<f64>` — computed from the
+/// dependencies directly, not through /repo's dispatch
 fn float_of(n: &json_syntax::Number) -> f64 {
-    if let Some(u) = n.as_u64() { u as f64 } else if let Some(i) = n.as_i64() { i as f64 } else { n.as_f64_lossy() }
+    let t = n.as_str();
+    if let Ok(u) = t.parse::<u64>() { u as f64 } else if let Ok(i) = t.parse::<i64>() { i as f64 } else { t.parse::<f64>().unwrap_or(f64::NAN) }
 }
 fn collect_numbers(v: &Value, acc: &mut Vec<String>) {
     match v {
